@@ -8,6 +8,7 @@ import (
 	"fmt"
 	"os"
 	"sort"
+	"strconv"
 	"strings"
 	"sync"
 	"testing"
@@ -18,7 +19,6 @@ import (
 	ldb2 "github.com/chrislusf/seaweedfs/weed/filer/leveldb2"
 	ldb3 "github.com/chrislusf/seaweedfs/weed/filer/leveldb3"
 	"github.com/chrislusf/seaweedfs/weed/pb/filer_pb"
-	"github.com/chrislusf/seaweedfs/weed/storage/needle"
 	"github.com/chrislusf/seaweedfs/weed/util"
 	"github.com/golang/protobuf/proto"
 	"pgregory.net/rapid"
@@ -133,15 +133,53 @@ type fidSpec struct {
 	cookie uint32
 }
 
-func (f fidSpec) canonical() string {
-	return needle.NewFileId(needle.VolumeId(f.vid), f.key, f.cookie).String()
+// refFid is the harness' own rendering of the canonical file id: decimal volume id, ',',
+// the key as whole hex bytes without leading zero bytes (so always an even number of
+// digits), the cookie as 8 hex digits. It does not call the code under test.
+func refFid(vid uint32, key uint64, cookie uint32) string {
+	k := fmt.Sprintf("%x", key)
+	if len(k)%2 == 1 {
+		k = "0" + k
+	}
+	return fmt.Sprintf("%d,%s%08x", vid, k, cookie)
+}
+
+// refParseFid is the harness' own reading of a (well-formed) file id string.
+func refParseFid(s string) (vid uint32, key uint64, cookie uint32) {
+	i := strings.Index(s, ",")
+	if i <= 0 || len(s)-i-1 <= 8 || len(s)-i-1 > 24 {
+		panic("generator produced malformed fid " + s)
+	}
+	v, err1 := strconv.ParseUint(s[:i], 10, 32)
+	k, err2 := strconv.ParseUint(s[i+1:len(s)-8], 16, 64)
+	c, err3 := strconv.ParseUint(s[len(s)-8:], 16, 32)
+	if err1 != nil || err2 != nil || err3 != nil {
+		panic("generator produced malformed fid " + s)
+	}
+	return uint32(v), k, uint32(c)
+}
+
+func (f fidSpec) canonical() string { return refFid(f.vid, f.key, f.cookie) }
+
+// genKey draws needle keys across all byte lengths with the most significant byte
+// boundary-biased (01, 0f, 10, ff): keys whose top byte is < 0x10 print with a leading 0.
+func genKey() *rapid.Generator[uint64] {
+	return rapid.Custom(func(t *rapid.T) uint64 {
+		n := rapid.IntRange(1, 8).Draw(t, "keyBytes")
+		top := rapid.OneOf(rapid.SampledFrom([]uint64{0x01, 0x0f, 0x10, 0xff, 0x07, 0x80}), rapid.Uint64Range(1, 255)).Draw(t, "keyTopByte")
+		rest := uint64(0)
+		if n > 1 {
+			rest = rapid.Uint64().Draw(t, "keyRest") & (1<<(8*uint(n-1)) - 1)
+		}
+		return top<<(8*uint(n-1)) | rest
+	})
 }
 
 func genFid() *rapid.Generator[fidSpec] {
 	return rapid.Custom(func(t *rapid.T) fidSpec {
 		return fidSpec{
 			vid:    rapid.OneOf(rapid.Uint32Range(0, 300), rapid.Uint32(), rapid.SampledFrom([]uint32{0, 1, 1<<32 - 1})).Draw(t, "vid"),
-			key:    rapid.OneOf(rapid.Uint64Range(1, 70000), rapid.Uint64Min(1), rapid.SampledFrom([]uint64{1, 255, 256, 1<<63 - 1, 1<<64 - 1})).Draw(t, "key"),
+			key:    rapid.OneOf(genKey(), genKey(), rapid.Uint64Range(1, 70000), rapid.Uint64Min(1), rapid.SampledFrom([]uint64{1, 255, 256, 1<<63 - 1, 1<<64 - 1})).Draw(t, "key"),
 			cookie: rapid.OneOf(rapid.Uint32(), rapid.SampledFrom([]uint32{0, 1, 0x0fffffff, 1<<32 - 1})).Draw(t, "cookie"),
 		}
 	})
@@ -309,14 +347,11 @@ func genEntry(t *rapid.T, fp util.FullPath) (*filer.Entry, *genInfo) {
 
 func canonicalOf(s string, f *filer_pb.FileId) (string, *filer_pb.FileId) {
 	if s != "" {
-		id, err := needle.ParseFileIdFromString(s)
-		if err != nil {
-			panic("generator produced unparsable fid " + s)
-		}
-		return id.String(), &filer_pb.FileId{VolumeId: uint32(id.VolumeId), FileKey: uint64(id.Key), Cookie: uint32(id.Cookie)}
+		v, k, c := refParseFid(s)
+		return refFid(v, k, c), &filer_pb.FileId{VolumeId: v, FileKey: k, Cookie: c}
 	}
 	if f != nil {
-		return needle.NewFileId(needle.VolumeId(f.VolumeId), f.FileKey, f.Cookie).String(), proto.Clone(f).(*filer_pb.FileId)
+		return refFid(f.VolumeId, f.FileKey, f.Cookie), proto.Clone(f).(*filer_pb.FileId)
 	}
 	return "", nil
 }
